@@ -169,14 +169,15 @@ func (multi multiFunctionListenerFactory) NewFunctionListener(def api.FunctionDe
 
 type multiFunctionListener struct {
 	lstns []FunctionListener
-	stack stackIterator
 }
 
 func (multi *multiFunctionListener) Before(ctx context.Context, mod api.Module, def api.FunctionDefinition, params []uint64, si StackIterator) {
-	multi.stack.base = si
+	// The replayable iterator belongs to this call: one listener serves all calls of its function, which can be
+	// in progress on several goroutines at once.
+	stack := stackIterator{base: si}
 	for _, lstn := range multi.lstns {
-		multi.stack.index = -1
-		lstn.Before(ctx, mod, def, params, &multi.stack)
+		stack.index = -1
+		lstn.Before(ctx, mod, def, params, &stack)
 	}
 }
 
